@@ -640,7 +640,16 @@ def _compare_mem(m, ea, F, mode, L, case, what, result_bits=64):
         rb = None
     if isinstance(rb, tuple) and rb[0] in ("rip", "label"):
         if rb[0] == "rip" and mode == 32:
-            raise Mismatch("operand-mismatch:mem:rip", what + ": rip-relative address accepted in 32-bit mode")
+            # asmjit emulates [rip+d] in 32-bit mode by an absolute address that a kRelToAbs relocation fills in:
+            # faithful once relocated; without a relocation there is no such address form
+            if not _RELOCATED:
+                raise Mismatch("operand-mismatch:mem:rip", what + ": rip-relative address accepted in 32-bit mode without a relocation")
+            if ea.base is not None or ea.index is not None or m.index is not None:
+                raise Mismatch("operand-mismatch:mem:base-index", what + ": relocated [rip+d] must be a plain absolute address")
+            if _eff_seg(m.seg, None, mode, asz) != _eff_seg(F.seg, None, mode, asz):
+                raise Mismatch("operand-mismatch:mem:segment", what + ": requested segment %s, bytes carry segment prefix %s" % (
+                    X._SEG[m.seg] if m.seg < 7 else m.seg, X._SEG[F.seg]))
+            return
         if not ea.rip:
             raise Mismatch("operand-mismatch:mem:rip", what + ": requested rip-relative, bytes are not")
         if m.index is not None:
@@ -813,8 +822,9 @@ def _check_form(f, case, b, bound, stage):
             raise Mismatch("field-mismatch:pp", "pp %s expected, prefix has %d" % (pp or "NP", F.pp))
     amd_cr8 = False
     if mode == 32 and F.pF0 and f["name"] == "mov" and not (opts & OPT["lock"]):
-        # AMD64 APM vol.3 (MOV CRn): in legacy mode CR8 is reached as "LOCK MOV CR0"
-        amd_cr8 = any(r is not None and r[0] == "r" and r[1] == "creg" and r[2] == 8 for r in bound)
+        # AMD64 APM vol.3 (MOV CRn, AltMovCr8): outside 64-bit mode the LOCK prefix stands for the 4th bit of the
+        # control register number ("LOCK MOV CR0" = CR8), the same registers REX.R reaches in 64-bit mode
+        amd_cr8 = any(r is not None and r[0] == "r" and r[1] == "creg" and 8 <= r[2] <= 15 for r in bound)
     if F.pF0 != bool(opts & OPT["lock"]) and not amd_cr8:
         raise Mismatch("field-mismatch:lock-prefix", "LOCK prefix %s" % ("present but not requested" if F.pF0 else "requested but missing"))
     if (opts & OPT["lock"]) and not any(x in f["prefixes"] for x in ("lock", "ilock")):
@@ -1169,7 +1179,7 @@ def _check_form(f, case, b, bound, stage):
 _ID_LIMIT_64 = {"r8": 16, "r8hi": 4, "r16": 16, "r32": 16, "r64": 16, "xmm": 32, "ymm": 32, "zmm": 32, "mm": 8, "k": 8,
                 "tmm": 8, "st": 8, "creg": 16, "dreg": 16, "bnd": 4, "rip": 1}
 _ID_LIMIT_32 = {"r8": 4, "r8hi": 4, "r16": 8, "r32": 8, "r64": 0, "xmm": 8, "ymm": 8, "zmm": 8, "mm": 8, "k": 8,
-                "tmm": 8, "st": 8, "creg": 9, "dreg": 8, "bnd": 4, "rip": 0}
+                "tmm": 8, "st": 8, "creg": 16, "dreg": 8, "bnd": 4, "rip": 1}
 
 
 def unencodable_ids(case):
